@@ -143,7 +143,16 @@ def run_ga(case, ctx):
     try:
         inner = make_inner(rng, D, in_sig, out_sig, record, claims_equivariant=case["i"] % 3 == 1)
         empty_ops = case["i"] % 11 == 5
-        ga = models.GroupAverage(inner, [] if empty_ops else [np.asarray(g) for g in Gp], always, inference)
+        # the operator list is mathematically a set: two cases in three hand it over in a random order (own stream), so that
+        # the identity is not the first element and no element sits at the index it was generated at (seeded change C10h)
+        ops = [np.asarray(g) for g in Gp]
+        if case["i"] % 3 != 0 and len(ops) > 1:
+            order = np.random.default_rng([ctx["seed"], 10, case["i"], 4]).permutation(len(ops))
+            if np.array_equal(ops[int(order[0])], np.eye(D, dtype=int)):
+                order = np.roll(order, 1)
+            ops = [ops[int(j)] for j in order]
+            key["ops"] = "shuffled, identity not first"
+        ga = models.GroupAverage(inner, [] if empty_ops else ops, always, inference)
         # multi-step history on the flags: the usual equinox idiom eqx.nn.inference_mode(model, value=...) switches the
         # `inference` leaves; "always average" must survive it, inference-only averaging must follow it
         import equinox as eqx
